@@ -21,7 +21,7 @@ ASSUMPTIONS = [
 
 
 def shards(tier, seed):
-    n = 1 if tier == 'quick' else 16
+    n = 8 if tier == 'quick' else 16
     return [dict(i=i, n=n) for i in range(n)]
 
 
@@ -220,7 +220,7 @@ def check_case(sink, c, o, seed, idx):  # noqa: C901
 
 
 def run_shard(sink, tier, seed, shard):
-    n_trees = harness.scale(1200, 120000, tier)
+    n_trees = harness.scale(6000, 120000, tier)
     k = 4 if tier == 'quick' else 6
     opts = gen.all_opts()
     i0, step = (shard or {}).get('i', 0), (shard or {}).get('n', 1)
